@@ -22,7 +22,9 @@ Theorem asynctask_lifetime_safe : forall l t s, reachable (fixed_cfg l t) s -> e
 Proof. intros l t s R. eapply safe_all_life. exact (check_all_sound facts_fixed fixed_ok l t s R). Qed.
 Print Assumptions asynctask_lifetime_safe.
 
-(* (ii) get() returns exactly the value fcn returned *)
+(* (ii) get() returns exactly the value fcn returned.  HYPOTHESIS carried by facts_fixed (f_flag_publishes = true): the
+   store of jobFinished in the task is release-or-stronger and its loads are acquire-or-stronger — the flag is what orders
+   "retValue = fcn()" before the no-wait "return retValue"; see asynctask_relaxed_flag_refuted *)
 Theorem asynctask_get_value : forall l t s, reachable (fixed_cfg l t) s -> forall v, got s = Some v -> v = VResult.
 Proof. intros l t s R. eapply safe_all_get. exact (check_all_sound facts_fixed fixed_ok l t s R). Qed.
 Print Assumptions asynctask_get_value.
@@ -89,6 +91,16 @@ Example asynctask_dtor_not_waiting_refuted : check (mkcfg facts_no_dtor_wait Spa
 Proof. exact no_dtor_wait_refuted. Qed.
 Example asynctask_get_not_waiting_refuted : check (mkcfg facts_get_nowait Spawn false) safe_get = false.
 Proof. exact get_nowait_refuted. Qed.
+Example asynctask_relaxed_flag_refuted :
+  check (mkcfg facts_relaxed_flag Spawn false) safe_life = false /\ check (mkcfg facts_relaxed_flag Spawn true) safe_life = false.
+Proof. exact relaxed_flag_refuted. Qed.
+Example asynctask_relaxed_flag_harmless_if_get_always_waits : check_all facts_relaxed_always_wait = true.
+Proof. exact relaxed_always_wait_ok. Qed.
+Example asynctask_flag_publishes_examples :
+  flag_publishes [MSeqCst] [MSeqCst; MSeqCst] = true /\ flag_publishes [MRelease] [MAcquire] = true /\
+  flag_publishes [MRelaxed] [MSeqCst] = false /\ flag_publishes [MSeqCst] [MRelaxed] = false /\
+  flag_publishes [MSeqCst] [MConsume] = false /\ flag_publishes [MNonAtomic] [MNonAtomic] = false /\ flag_publishes [] [MSeqCst] = false.
+Proof. exact flag_publishes_table. Qed.
 Example asynctask_harmless_variants_ok : check_all facts_ret_first = true /\ check_all facts_always_wait = true.
 Proof. exact harmless_ok. Qed.
 
@@ -222,3 +234,9 @@ Print Assumptions schedule_internal_wakeup_needs_both_fences.
 (* as found: only the worker side is fenced (its increment is an atomic RMW); the scheduler side reads plainly *)
 Example schedule_internal_wakeup_as_found_refuted : lost_wakeup_possible false true = true.
 Proof. exact (proj1 (proj2 litmus_table)). Qed.
+
+(* a static arena handle (one per closure type, attached by whichever thread called first) is not the reference shape *)
+Example schedule_impl_static_arena_rejected :
+  glue_ok (fun b => match b with BTbb => [SUnknown; SEnqueue] | _ => sched_impl_ref b end) impl_ctor_ref impl_wait_ref = false
+  /\ glue_ok sched_impl_ref impl_ctor_ref impl_wait_ref = true.
+Proof. split; reflexivity. Qed.
